@@ -593,6 +593,27 @@ func c07ReadOnlySweep(payloads map[string]func() (any, func() []byte), name stri
 				} else if !panicked {
 					out = append(out, [2]string{"readonly-mutator-did-not-panic:" + ty.Name() + "." + m.Name, fmt.Sprintf("%s: %s.%s on a read-only value did not panic", name, path, m.Name)})
 				}
+				if m.Name == "CopyTo" && w.IsValid() && c07Usable(v) && c07Usable(w) {
+					// copying OUT of a read-only value is a read ("all readers keep working"): into the mutable twin - which is
+					// longer than the source everywhere, i.e. a destination with spare capacity - it must not panic, must leave
+					// the read-only payload as it is and must make the destination equal to the source
+					c07ROCount++
+					var pan any
+					func() {
+						defer func() { pan = recover() }()
+						v.Method(i).Call([]reflect.Value{w})
+					}()
+					switch after := string(enc()); {
+					case pan != nil:
+						out = append(out, [2]string{"readonly-source-copy-panicked:" + ty.Name(), fmt.Sprintf("%s: %s.CopyTo(mutable destination) with a read-only source panicked: %v", name, path, pan)})
+					case after != before:
+						out = append(out, [2]string{"readonly-mutated:" + ty.Name() + ".CopyTo", fmt.Sprintf("%s: %s.CopyTo(mutable destination) changed the read-only source", name, path)})
+						before = after
+					case c07Obs(w, 0) != c07Obs(v, 0):
+						out = append(out, [2]string{"readonly-source-copy-differs:" + ty.Name(), fmt.Sprintf("%s: after %s.CopyTo(mutable destination) with a read-only source the destination differs from the source", name, path)})
+					}
+					before2 = string(enc2())
+				}
 				if (m.Name == "MoveTo" || m.Name == "MoveAndAppendTo") && w.IsValid() {
 					// the same mutator with a MUTABLE destination: it empties its (read-only) receiver, so it must panic - and
 					// the destination must be what it was
@@ -1093,4 +1114,33 @@ func c07Diff(a, b string) string {
 		hi = len(a)
 	}
 	return "..." + a[lo:hi] + "..."
+}
+
+
+// c07Usable: v is a live wrapper (the accessor of another one-of alternative returns a wrapper whose every method
+// panics by design): its Len, or its first plain reader, works.
+func c07Usable(v reflect.Value) (ok bool) {
+	defer func() {
+		if r := recover(); r != nil {
+			ok = false
+		}
+	}()
+	ty := v.Type()
+	if _, has := ty.MethodByName("Len"); has {
+		v.MethodByName("Len").Call(nil)
+		return true
+	}
+	for i := 0; i < ty.NumMethod(); i++ {
+		m := ty.Method(i)
+		if m.Type.NumIn() == 1 && m.Type.NumOut() == 1 && !c07IsMutatorName(m.Name) && m.Name != "IsReadOnly" {
+			r := v.Method(i).Call(nil)[0]
+			if r.Kind() == reflect.Struct && r.NumMethod() > 0 {
+				if !c07Usable(r) {
+					return false
+				}
+			}
+			return true
+		}
+	}
+	return true
 }
